@@ -13,6 +13,8 @@
 #define VF_CONTRACTS_BN_STRUCT_H
 #ifndef VF_REPLAY
 
+/* ghost digit index ("for every index"): nondeterministic, never assigned */
+size_t vf_bn_ix;
 #define VF_BN_IN(p)	(VF_BN_OK(p) && VF_BN_WF(*(p)))
 /* two bn_t operands are the same object or do not overlap (they may be members of one struct) */
 #define VF_BN_SEP(a, b)	((a) == (b) || !__CPROVER_same_object((a), (b)) ||	\
@@ -208,6 +210,15 @@ __CPROVER_requires(VF_BN_IN(bn) && bits < bn->count * BN_DIGIT_BITS)
 __CPROVER_assigns(VF_BN_FRAME(bn))
 __CPROVER_ensures(VF_BN_WF(*bn))
 __CPROVER_ensures(VF_BN_VAL(*bn) == ((VF_BN_OLDVAL(bn) << bits) & (VF_BN_CAP(*bn) - 1)))
+/* what bn_div relies on: the K = MIN(count, digits + 1 + bits/W) low digits hold the shifted
+ * number (so digits between the new digit count and K are zero) and digits from K on are untouched
+ * (ghost index vf_bn_ix) */
+__CPROVER_ensures(__CPROVER_old(bn->digits) != 0 ==>
+    VF_DIGITS_VAL(bn->num, MIN(bn->count, __CPROVER_old(bn->digits) + 1 + bits / BN_DIGIT_BITS)) ==
+    ((VF_BN_OLDVAL(bn) << bits) & (VF_POW2W(MIN(bn->count, __CPROVER_old(bn->digits) + 1 + bits / BN_DIGIT_BITS)) - 1)))
+__CPROVER_ensures((__CPROVER_old(bn->digits) != 0 && vf_bn_ix < BN_MAX_DIGITS &&
+    vf_bn_ix >= MIN(bn->count, __CPROVER_old(bn->digits) + 1 + bits / BN_DIGIT_BITS)) ==>
+    bn->num[vf_bn_ix < BN_MAX_DIGITS ? vf_bn_ix : 0] == __CPROVER_old(bn->num[vf_bn_ix < BN_MAX_DIGITS ? vf_bn_ix : 0]))
 ;
 static inline void
 bn_r_shift(bn_p bn, size_t bits)
